@@ -134,6 +134,9 @@ def build(chk):
     c_solve(chk)
     c_background(chk)
     c_fd_estimate(chk)
+    from .C13_moments import c_getdeltas, c_helpers_do_not_touch_the_deviation
+    c_getdeltas(chk)
+    c_helpers_do_not_touch_the_deviation(chk)
 
 
 def c_fd_estimate(chk):
